@@ -70,4 +70,20 @@ CHECKS['C05'] = {
     'design_ref': 'DESIGN.md §4 C05',
 }
 
+CHECKS['C06'] = {
+    'technique': 'static analysis: edge-dominance rules on the command executor (aborted tasks never polled, abort observed on every cycle that runs a task), who-may-panic rule on resolve closures, abort-handle store/load table',
+    'text': 'Static rule instances over the MIR of crux_core: a task\'s future is polled only on the not-aborted edge; an aborted command clears its tasks and returns first; every CFG cycle that runs a task re-tests the command\'s aborted flag; resolve closures contain no unwrap/expect/panic/indexing other than lock poisoning; both abort handles store true (>= Release) into the flag the executor loads (>= Acquire). Necessary conditions on all paths; containment and finality at every injection point are not decided.',
+    'design_ref': 'DESIGN.md §4 C06',
+}
+CHECKS['C07'] = {
+    'technique': 'static analysis: dependence rule on is_done, who-may-remove rule on the command task slab with ordering of finish/notify, input-presence rule on the eviction test',
+    'text': 'Static rule instances over the MIR of crux_core: is_done settles and then depends on effects, events and the task slab; tasks leave the slab only on Completed|Cancelled (or abort), with finished published before join handles are woken; Completed arises only from Ready or abort; the eviction test depends on the Pending result, the woken flag and the count of the per-poll waker read after the executor\'s own copy was dropped. NOT decided: exactness of the waker-count heuristic for arbitrary user futures (runtime behaviour of user code).',
+    'design_ref': 'DESIGN.md §4 C07',
+}
+CHECKS['C08'] = {
+    'technique': 'static analysis: lock-region rule, lock-order graph over the call graph with signature-matched candidates for dynamic dispatch, atomic-ordering table, reader/writer ordering rule on the eviction test',
+    'text': 'Static rule instances over the MIR of all runtime crates: no poll or waker call under the executor task lock and the slot is taken in the region that looked it up; the acquired-while-holding graph over the five lock classes (computed through the call graph, dyn calls resolved to signature-matching closures and trait impls) has no cycle or self edge (today: registry -> legacy SharedState only); flag loads/stores are Acquire/Release or stronger and the timer counter is RMW-only; the eviction test reads count, fence(Acquire), woken in the reverse of the publishing order. Necessary conditions; linearizability of concurrent calls is not decided.',
+    'design_ref': 'DESIGN.md §4 C08',
+}
+
 PENDING_REASON = 'check not yet armed in this framework (static rules designed in DESIGN.md §4; implementation in progress)'
